@@ -93,7 +93,8 @@ def plans_of(spec):
         w = dict(r['world']); w['c10'] = 1
         p = plans.base_plan('run%d' % k, w, r.get('dec'), r.get('pre'))
         plans.add_entry(p, wl, spec['entry'], spec['fmt'], r['nthreads'], spec['repeat'], quiet)
-        out.append(('run%d' % k, r['variant'], p, ix))
+        fresh = bool(w.get('p_shared')) and r.get('dec') is None      # address-keyed decisions: fresh worker, ASLR off
+        out.append(('run%d' % k, r['variant'], p, ix, fresh))
     return out
 
 
@@ -185,6 +186,8 @@ def judge(spec, results):
                 add('C01', 'C01_' + c, '%s (%s, entry %s, format %s)' % (d, tag, spec['entry'], spec['fmt']), tag)
 
     # the reference itself
+    if ref is not None and ref.crash_class() == 'SLOW':
+        return V
     if ref is None or ref.crashed():
         cc = ref.crash_class() if ref is not None else 'NO_RESULT'
         add('X', 'X_REF_CRASH:%s' % cc, 'sequential reference run ended with %s at %s' % (cc, ref.crash_site() if ref is not None else '?'), 'ref')
@@ -215,6 +218,8 @@ def judge(spec, results):
         if r.crashed():
             cc = r.crash_class()
             cls = 'C02_HANG_UNDER_SCHEDULE' if cc in ('DEADLOCK', 'BUDGET', 'TIMEOUT') else 'C02_CRASH_UNDER_SCHEDULE'
+            if cc == 'SLOW':
+                continue          # progressing but given up after the hard cap: not a verdict about kalign
             if cc in ('UNSUPPORTED', 'HARNESS'):
                 add('H', 'H_' + cc, str(r.fatal), tag)
             else:
@@ -313,7 +318,7 @@ def shrinks(spec, viol):
         if r['variant'] != 'plain' and not w.get('p_preempt'):
             s = copy.deepcopy(spec); s['runs'][k]['variant'] = 'plain'
             yield s
-        for key in ('p_stall', 'p_shortfall', 'p_preempt', 'p_burst', 'p_hook_yield', 'tw_descendants', 'pick_order'):
+        for key in ('p_stall', 'p_shortfall', 'p_preempt', 'p_shared', 'p_burst', 'p_hook_yield', 'tw_descendants', 'pick_order'):
             if w.get(key):
                 s = copy.deepcopy(spec); s['runs'][k]['world'][key] = 0
                 if r.get('dec') is None:
